@@ -302,8 +302,10 @@ impl Check for C01 {
     }
     fn phases(&self, tier: Tier, b: f64) -> Vec<Phase> {
         let q = tier == Tier::Quick;
+        // the secondary build configurations (std feature, debug profile) always use the <= 2 byte space
+        let short2 = q || std::env::var("VERIF_C01_SECONDARY").is_ok();
         vec![
-            Phase { name: "every byte string of length <= 2 (quick) / <= 3 (thorough) at all 31 byte-level entry points, in batches of 512 per child", cases: if q { (65536 + 256 + 1 + 511) / 512 } else { (16777216 + 65536 + 256 + 1 + 511) / 512 }, exhaustive: true },
+            Phase { name: "every byte string of length <= 2 (quick, and the secondary build configurations) / <= 3 (thorough) at all 31 byte-level entry points, in batches of 512 per child", cases: if short2 { (65536 + 256 + 1 + 511) / 512 } else { (16777216 + 65536 + 256 + 1 + 511) / 512 }, exhaustive: true },
             Phase { name: "byte-mutated test-suite vectors and generated messages (bit flips, span edits, splices, head rewriting, truncation), 256 per child", cases: scale(if q { 400 } else { 12000 }, b), exhaustive: false },
             Phase { name: "length lies: every head position of valid messages rewritten to claim 2^16 .. 2^64-1 items/bytes", cases: scale(if q { 100 } else { 3000 }, b), exhaustive: false },
             Phase { name: "structurally valid / single- and multi-fault generated values in random encodings, 128 per child", cases: scale(if q { 300 } else { 10000 }, b), exhaustive: false },
